@@ -429,6 +429,12 @@ def install(I):
     B["math.sqrt"] = Builtin("math.sqrt", m_sqrt)
 
     # collections
+    def b_namedtuple(I, a, k):
+        import collections as _c
+        cls = _c.namedtuple(a[0], a[1])
+        return Builtin("namedtuple:" + a[0], lambda I_, a_, k_: cls(*a_, **k_))
+
+    B["collections.namedtuple"] = Builtin("namedtuple", b_namedtuple)
     B["collections.OrderedDict"] = Builtin("OrderedDict", lambda I, a, k: b_dict(I, a, k))
     B["collections.defaultdict"] = Builtin("defaultdict", lambda I, a, k: DDict(a[0]) if a else DDict(None))
     B["warnings.warn"] = Builtin("warn", lambda I, a, k: None)
@@ -765,6 +771,8 @@ def method(I, o, name):
             return mk(lambda: o.reverse())
         if name == "clear":
             return mk(lambda: o.clear())
+    if isinstance(o, tuple) and name in getattr(type(o), "_fields", ()):
+        return getattr(o, name)
     if isinstance(o, tuple):
         if name == "index":
             def tindex(v):
